@@ -519,7 +519,7 @@ def check_program(item, want_obs=OBS):
         ob = Observer(prog)
     except sgrun.Refused as r:
         counts["refused"] = 1
-        return {"status": "ok", "outcome": f"refused:{r.etype}", "nontrivial": False, "nkey": nkey,
+        return {"status": "ok", "outcome": f"{item['sub']}:refused:{r.etype}", "nontrivial": False, "nkey": nkey,
                 "counts": counts, "show": text}
     viols = {}
     undef_reasons = {}
@@ -602,12 +602,12 @@ def check_program(item, want_obs=OBS):
     for r, n in undef_reasons.items():
         counts["undef:" + r] = n
     if viols:
-        return {"status": "viol", "outcome": "accepted-violation", "nkey": nkey, "counts": counts, "show": text,
+        return {"status": "viol", "outcome": f"{item['sub']}:accepted-violation", "nkey": nkey, "counts": counts, "show": text,
                 "viols": [{"key": k, "detail": v} for k, v in sorted(viols.items())]}
     if counts["defined"] == 0:
-        return {"status": "ok", "outcome": "accepted-undefined-everywhere", "nontrivial": False, "nkey": nkey,
-                "counts": counts, "show": text}
-    return {"status": "ok", "outcome": "accepted-agree", "nkey": nkey, "counts": counts, "show": text}
+        return {"status": "ok", "outcome": f"{item['sub']}:accepted-undefined-everywhere", "nontrivial": False,
+                "nkey": nkey, "counts": counts, "show": text}
+    return {"status": "ok", "outcome": f"{item['sub']}:accepted-agree", "nkey": nkey, "counts": counts, "show": text}
 
 
 def graph_label(prog, feeds, attrs, which, kc):
